@@ -56,6 +56,9 @@ impl<F: WithSmallOrderMulGroup<3> + Ord> Argument<F> {
                 acc * trash_challenge + &expression
             });
 
+        #[cfg(feature = "verif-hooks")]
+        crate::plonk::verif_hooks::on_argument_vector("trash", &compressed_expression);
+
         let trash_commitment = CS::commit_lagrange(params, &compressed_expression);
         let trash_poly = domain.lagrange_to_coeff(compressed_expression);
 
